@@ -16,15 +16,19 @@ def main():
         subprocess.check_call(["git", "-C", "/repo", "worktree", "add", "-q", "--detach", repo, "HEAD"])
         if patch != "/dev/null":
             subprocess.check_call(["git", "-C", repo, "apply", patch])
-        h = os.path.join(root, "harness")
-        shutil.copytree("/verif/harness", h, ignore=shutil.ignore_patterns("target"))
+        # a scratch copy of the whole machinery (specs, tools, harness), so that /verif can be edited meanwhile
+        v = os.path.join(root, "verif")
+        shutil.copytree("/verif", v, ignore=shutil.ignore_patterns("target", "work", ".git", "evidence", "__pycache__"))
+        h = os.path.join(v, "harness")
         for d in ("d1", "d2"):
             p = os.path.join(h, d, "shadow", "Cargo.toml")
             s = open(p).read().replace('path = "/repo/src/lib.rs"', 'path = "%s/src/lib.rs"' % repo)
             open(p, "w").write(s)
-        env = dict(os.environ, VERIF_HARNESS=h, VERIF_WORK=os.path.join(root, "work"), VERIF_EVIDENCE=os.path.join(root, "evidence"))
+        env = dict(os.environ, VERIF_HARNESS=h, VERIF_WORK=os.path.join(root, "work"), VERIF_EVIDENCE=os.path.join(root, "evidence"),
+                   VERIF_TMP=os.path.join(root, "work"))
+        check = os.path.join(v, "check")
         for pr in props:
-            p = subprocess.run(["/verif/check", pr], cwd="/verif", env=env, stdout=subprocess.PIPE, stderr=subprocess.STDOUT, text=True, timeout=3600)
+            p = subprocess.run([check, pr], cwd=v, env=env, stdout=subprocess.PIPE, stderr=subprocess.STDOUT, text=True, timeout=3600)
             out = p.stdout
             guards = {}
             for rp in re.findall(r"^VIOLATION property=\w+ replay=(\S+)", out, re.M):
